@@ -43,7 +43,7 @@ TraceSpec == TraceInit /\ [][TraceNext]_tvars
 \* every trace consumed completely; otherwise print how far each one got
 Progress(t) == TLCGet(t)
 TraceAccepted ==
-    \A t \in 1..Len(Traces) :
-        \/ Progress(t) = Len(Traces[t]) + 1
-        \/ PrintT(<<"REJECTED", t, Progress(t)>>) /\ FALSE
+    LET bad == {t \in 1..Len(Traces) : Progress(t) # Len(Traces[t]) + 1}
+    IN /\ \A t \in bad : PrintT(<<"REJECTED", t, Progress(t)>>)
+       /\ bad = {}
 =============================================================================
